@@ -9,23 +9,31 @@ TRUSTED = [
     "(and by C14's malformed stream); Gen.convertyear / Gen.adjustAmpm are re-translated from source on every run",
     "the template printers of the oracle are harness/props/_parser_gen.py (Python); the Lean printer of the proved family "
     "(Spec/ParserTemplates.lean, ISO-like YYYY-MM-DD[T ]HH:MM:SS) is compared with it on every run (parser.render op)",
-    "parse_render_iso is a theorem for templates iso_T_s / iso_sp_s without offset (all valid datetimes, any classification "
-    "agreeing with ASCII on 0-9 - : T space -- checked against Python's predicates each run); the other 42 templates and "
-    "all offset spellings are parse_render_partial: oracle sweep + correspondence of the executable model only",
+    "which templates have a parse_render theorem is not typed here: the driver prints PT.provedTemplates (covered by the theorem "
+    "C02.proved_templates_have_theorems) and the evidence shows it as histograms.proved_templates / partial_templates with the "
+    "offset scope and the dayfirst/yearfirst scope of each theorem; everything else is parse_render_partial (oracle sweep + "
+    "correspondence of the executable model only)",
+    "a failing oracle case is KNOWN only if the implementation's answer equals the Lean model's answer on it and the observed "
+    "result is exactly the listed symptom; anything else inside a known class is a VIOLATION",
 ]
 ASSUMPTIONS = [
-    "parserinfo._year is read back from the implementation (two-digit-year expectations do not depend on the wall clock)",
+    "parserinfo._year is read back from the implementation for the expectations; that it IS the current year (and _century its "
+    "century) is checked once per run on a freshly built parserinfo",
     "a year, an AM/PM marker or an `s` unit is separated from a following offset / Z by a space (part of the templates)",
-    "only the offset of a ' UTC' / 'Z' result is required (tz.UTC or tzlocal() when the process zone is itself called UTC)",
+    "a zero-offset rendering must come back with utcoffset 0 under EVERY process zone; where the process zone is called UTC but "
+    "is elsewhere (TZ=UTC+3) the implementation fails this: known finding D-C02-local-zone-named-utc",
 ]
 RULE = ("48 templates (ISO-like T/space, 1-6 fraction digits dot/comma, compact 8/12/14 digits, ctime, RFC 2822, month-name forms, "
         "NNhNNmNNs, US/European/year-first numeric under the matching flags, 12-hour forms incl. 12 AM/12 PM, two-digit years) "
         "x boundary-biased datetimes (years 1, 2, 31, 32, 68, 69, 99, 100, 101, 999, 1000, 9998, 9999; day 31 / month end; "
-        "midnight/noon; µs 0/1/999999) x 21 offset spellings x TZ settings; distinct = distinct (template, datetime, offset, TZ); "
-        "non-trivial = the rendering was parsed and compared with trunc(dt)")
+        "midnight/noon; µs 0/1/999999) x 21 offset spellings x TZ settings (IANA names and POSIX strings that CALL a zone UTC / GMT at "
+        "another offset: UTC+3, GMT-2, UTC0) x for proved templates every dayfirst/yearfirst combination and default the theorem "
+        "allows; distinct = distinct (template, datetime, offset, TZ, flags, default); "
+        "non-trivial = the rendering was parsed and compared with the datetime rendered (unnamed fields from the default)")
 
-TZ_QUICK = ["UTC", "America/New_York", "Europe/London"]
-TZ_ALL = ["UTC", "America/New_York", "Europe/London", "Asia/Kolkata", "Australia/Lord_Howe", "America/Sao_Paulo"]
+TZ_NAMED = ["UTC+3", "GMT-2", "UTC0", "XXX0UTC,M3.5.0,M10.5.0"]     # zones CALLED UTC / GMT by a POSIX string, at any offset
+TZ_QUICK = ["UTC", "America/New_York", "Europe/London", "UTC+3", "GMT-2", "UTC0"]
+TZ_ALL = ["UTC", "America/New_York", "Europe/London", "Asia/Kolkata", "Australia/Lord_Howe", "America/Sao_Paulo"] + TZ_NAMED
 
 
 def in_domain(t, d, year_now):
@@ -58,7 +66,7 @@ def correspondence(ctx):
     rng = ctx.subrng("corr")
     prev = L.set_tz("UTC")
     try:
-        for tzenv in (TZ_ALL if ctx.budget(0, 1) else TZ_QUICK[:2]):
+        for tzenv in (TZ_ALL if ctx.budget(0, 1) else ["UTC", "America/New_York", "UTC+3"]):
             L.set_tz(tzenv)
             cs = cases(rng, ctx.budget(6000, 60000), year_now)
             calls = [call_of(t, d, off) for t, d, off in cs]
@@ -76,9 +84,10 @@ def correspondence(ctx):
             ctx.mismatch("AsciiOK", "ASCII classes", py_ascii, lean_ascii)
         # proved / partial template lists come from the Lean side (PT.provedTemplates, covered by the theorem
         # C02.proved_templates_have_theorems): an id listed there without a theorem does not build
-        proved = dict(x.split(":") for x in ctx.driver(["parser.proved"])[0][3:].split(","))
+        pm = proved_map(ctx)
+        proved = {k: v[0] for k, v in pm.items()}
         py_ids = [t['name'] for t in G.TEMPLATES]
-        ctx.hist["proved_templates"] = ", ".join("%s[offsets:%s]" % (k, v) for k, v in proved.items())
+        ctx.hist["proved_templates"] = ", ".join("%s[offsets:%s dayfirst:%s yearfirst:%s]" % (k, v[0], v[1], v[2]) for k, v in pm.items())
         ctx.hist["partial_templates"] = ", ".join(
             [n for n in py_ids if n not in proved] +
             ["%s+offsets" % n for n in py_ids if n in proved and proved[n] == "none" and G.T[n]['time']])
@@ -209,56 +218,196 @@ def correspondence(ctx):
         L.set_tz(prev)
 
 
-def dc02(case):
-    """D-C02 class: month-name template whose year reaches ymd.append as a Decimal, and year < 100"""
-    return bool(case.get("year_via_decimal")) and case.get("year", 9999) < 100
+ZERO_NAMES = {"Z": "UTC", "UTC": "UTC"}        # what `validate` / `_parse` make of a zero-offset spelling: tzname 'UTC'
+
+
+# second-precision renderings whose seconds do NOT go through `_parsems` (which sets microsecond = 0): the 14-digit run
+# YYYYMMDDHHMMSS sets `second` only, so the microsecond is a field "absent from the text" and comes from the default (C15);
+# this is what PT.CompactFmt.expect .nosepHMS says.  With the usual midnight default both readings are trunc(dt).
+US_FROM_DEFAULT = {'compact_nosep_s'}
+
+
+def expect_of(d, prec, dflt, name=None):
+    """the datetime a rendering of precision `prec` must parse to: fields the text does not show come from the default"""
+    if prec == 's' and name in US_FROM_DEFAULT:
+        return d.replace(microsecond=dflt.microsecond)
+    if prec == 'us':
+        return d
+    if isinstance(prec, tuple):
+        q = 10 ** (6 - prec[1])
+        return d.replace(microsecond=d.microsecond // q * q)
+    if prec == 's':
+        return d.replace(microsecond=0)
+    if prec == 'm':
+        return d.replace(second=dflt.second, microsecond=dflt.microsecond)
+    if prec == 'h':
+        return d.replace(minute=dflt.minute, second=dflt.second, microsecond=dflt.microsecond)
+    return d.replace(hour=dflt.hour, minute=dflt.minute, second=dflt.second, microsecond=dflt.microsecond)
+
+
+def proved_map(ctx):
+    """id -> (offset scope, dayfirst code, yearfirst code) from the Lean side (PT.provedTemplates)"""
+    out = {}
+    for x in ctx.driver(["parser.proved"])[0][3:].split(","):
+        k, v = x.split(":")
+        sc, fl = v.split("/")
+        out[k] = (sc, fl[0], fl[1])
+    return out
+
+
+_INFO_OBJS = {}
+
+
+def info_of(df, yf):
+    """one shared parserinfo(dayfirst=df, yearfirst=yf) per combination"""
+    from dateutil.parser import parserinfo
+    if (df, yf) not in _INFO_OBJS:
+        _INFO_OBJS[(df, yf)] = parserinfo(dayfirst=df, yearfirst=yf)
+    return _INFO_OBJS[(df, yf)]
+
+
+def flag_choices(code, own):
+    """argument values allowed by a theorem's flag code: 0 = effective flag false, 1 = true, * = any"""
+    if code == '*':
+        return [None, True, False]
+    if code == '1':
+        return [True]
+    return [None, False]
+
+
+def pivot_year(y2, year_now):
+    """the unique year congruent to y2 mod 100 within -50..+49 of year_now (written without convertyear)"""
+    for y in range(year_now - 50, year_now + 50):
+        if y % 100 == y2 % 100:
+            return y
+
+
+def zone_clause(got, exp, off):
+    """the property's own clause: naive iff nothing rendered; else aware with exactly the rendered offset"""
+    if off is None:
+        return got.tzinfo is None and got == exp
+    try:
+        return (got.tzinfo is not None and got.utcoffset() == datetime.timedelta(seconds=G.offset_seconds(off))
+                and got.replace(tzinfo=None) == exp)
+    except (ValueError, OverflowError):
+        return False
+
+
+def classify_failure(t, d, off, exp, ans, model, got, year_now):
+    """which KNOWN class (if any) a failing case is an instance of.  A case is known only if the implementation's answer
+    equals the Lean model's answer (the model is the formal statement of the defect) AND the observed result is exactly
+    the symptom the finding describes."""
+    import time as _time
+    from dateutil import tz
+    if ans == model == "err ParserError" and t['name'].startswith('hms_letters_') and t['name'][-1] in "35":
+        return "D-C02-hms-fraction-token-length"        # exactly: rejected, model agrees, 3 or 5 fraction digits after NNhNNmNN
+    if ans != model or not ans.startswith("ok ") or got is None:
+        return None
+    naive = got.replace(tzinfo=None)
+    ids = []
+    # D-C02-monthname-century: the wall time is right except for the century — the year is the two-digit pivot of year % 100
+    want = exp
+    if t['ydec'] and d.year < 100:
+        want = exp.replace(year=pivot_year(d.year, year_now))
+        ids.append("D-C02-monthname-century")
+    if naive != want:
+        return None
+    # zone: as rendered, or D-C02-local-zone-named-utc: zero offset rendered, the process zone is CALLED UTC but is not at
+    # offset zero at that wall time, and the result is exactly in the process zone
+    if off is None:
+        zone_ok = got.tzinfo is None
+    else:
+        zone_ok = got.tzinfo is not None and got.utcoffset() == datetime.timedelta(seconds=G.offset_seconds(off))
+    if not zone_ok:
+        if not (off is not None and G.offset_seconds(off) == 0 and "UTC" in _time.tzname and isinstance(got.tzinfo, tz.tzlocal)):
+            return None
+        lo = got.utcoffset()
+        if lo is None or lo == datetime.timedelta(0) or lo != naive.replace(tzinfo=tz.tzlocal()).utcoffset():
+            return None
+        ids.append("D-C02-local-zone-named-utc")
+    return "+".join(ids) if ids else None
 
 
 def oracle(ctx):
+    import time as _time
+    from dateutil import parser as P
     from dateutil.parser import _parser
     year_now = _parser.DEFAULTPARSER.info._year
+    # ---- "of the current year": a freshly built parserinfo really uses this year (New-Year race tolerated) and the century
+    #      that belongs to it; DEFAULTPARSER's may be older only by a process that lived through New Year
+    y0 = datetime.datetime.now().year
+    fresh = P.parserinfo()
+    y1 = datetime.datetime.now().year
+    ctx.case(("current-year",), nontrivial=True)
+    if fresh._year not in (y0, y1) or fresh._century != fresh._year // 100 * 100:
+        ctx.violation("parserinfo()._year / _century must be the current year and its century",
+                      {"text": None, "_year": fresh._year, "_century": fresh._century, "now": y1}, {})
+    if year_now not in (y0, y1, y0 - 1) or _parser.DEFAULTPARSER.info._century != year_now // 100 * 100:
+        ctx.violation("DEFAULTPARSER.info._year / _century must be the current year and its century",
+                      {"text": None, "_year": year_now, "_century": _parser.DEFAULTPARSER.info._century, "now": y1}, {})
+    proved = proved_map(ctx)
     rng = ctx.subrng("oracle")
     prev = L.set_tz("UTC")
+    known_counts = {}
+    samples = []
     try:
-        for tzenv in (TZ_ALL if ctx.budget(0, 1) else TZ_QUICK):
+        envs = (TZ_ALL if ctx.budget(0, 1) else TZ_QUICK)
+        for tzenv in envs:
             L.set_tz(tzenv)
-            cs = cases(rng, ctx.budget(16000, 200000), year_now)
+            named_utc = tzenv in TZ_NAMED
+            cs = cases(rng, ctx.budget(4000 if named_utc else 12000, 60000 if named_utc else 200000), year_now)
+            rows = []
+            for t, d, off in cs:
+                # EFFECTIVE flags: the template's own, or (half of the time) any combination its theorem says the result does not
+                # depend on; then spread over the two levels the code has — parserinfo(dayfirst=, yearfirst=) and the keyword of
+                # the call (None = take the parserinfo's; an explicit False must override a parserinfo built with True)
+                edf, eyf = bool(t['flags'].get('dayfirst')), bool(t['flags'].get('yearfirst'))
+                dflt = datetime.datetime(2001, 1, 1)
+                if t['name'] in proved and rng.random() < 0.5 and not (t['ydec'] and d.year < 100):     # inside the theorem's domain
+                    _, cdf, cyf = proved[t['name']]
+                    edf = rng.choice([False, True]) if cdf == '*' else (cdf == '1')
+                    eyf = rng.choice([False, True]) if cyf == '*' else (cyf == '1')
+                    dflt = rng.choice(G.DEFAULTS)
+                    ctx.count("flags_varied")
+                idf, iyf = rng.choice([False, False, True]), rng.choice([False, False, True])
+                df = rng.choice([None, edf]) if idf == edf else edf
+                yf = rng.choice([None, eyf]) if iyf == eyf else eyf
+                info = None if (not idf and not iyf and rng.random() < 0.7) else info_of(idf, iyf)
+                ctx.count("levels_info%d%d_kw%s%s" % (idf, iyf, "N" if df is None else int(df), "N" if yf is None else int(yf)))
+                rows.append((t, d, off, L.Call(G.render(t, d, off), default=dflt, dayfirst=df, yearfirst=yf, info=info, tag=t['name'])))
             # every template at the D-C02 witness and at fixed boundary datetimes
             for t in G.TEMPLATES:
                 for d in (datetime.datetime(31, 5, 28, 23, 52, 59), datetime.datetime(99, 12, 31, 12, 0, 0, 999999),
                           datetime.datetime(100, 1, 1), datetime.datetime(9999, 12, 31, 23, 59, 59, 999999),
                           datetime.datetime(2000, 2, 29, 0, 0, 0, 1), datetime.datetime(1, 1, 1)):
                     if in_domain(t, d, year_now):
-                        cs.append((t, d, None))
-            for t, d, off in cs:
-                c = call_of(t, d, off)
+                        rows.append((t, d, None, call_of(t, d, None)))
+            model = L.model_answers(ctx, [r[3] for r in rows])
+            for (t, d, off, c), m in zip(rows, model):
                 ans, _, got = L.run_impl(c, raw=True)
-                exp = G.trunc(d, t['prec'])
+                exp = expect_of(d, t['prec'], c.default, t['name'])
                 case = c.describe()
                 case.update({"template": t['name'], "datetime": d.isoformat(), "offset": off, "year": d.year,
                              "year_via_decimal": t['ydec'], "family": t['fam']})
-                ctx.case((t['name'], d, off, tzenv), nontrivial=ans.startswith("ok "))
+                ctx.case((t['name'], d, off, tzenv, c.dayfirst, c.yearfirst, c.default), nontrivial=ans.startswith("ok "))
                 ctx.count("template_" + t['name'])
                 ctx.count("offset_" + ("none" if off is None else off.strip()))
                 if d.year < 100:
                     ctx.count("year_below_100")
-                if not ans.startswith("ok "):
-                    ctx.violation("rendering rejected (%s)" % ans, case, {"expected": exp.isoformat()})
+                if len(samples) < 3 and rng.random() < 0.001:
+                    samples.append({"text": c.text, "TZ": tzenv, "template": t['name'], "impl": ans, "model": m})
+                ok = ans.startswith("ok ") and zone_clause(got, exp, off)
+                if ok:
                     continue
-                if off is None:
-                    ok = got.tzinfo is None and got == exp
-                else:
-                    try:
-                        ok = (got.tzinfo is not None and got.utcoffset() == datetime.timedelta(seconds=G.offset_seconds(off))
-                              and got.replace(tzinfo=None) == exp)
-                    except (ValueError, OverflowError):
-                        ok = False
-                if not ok and dc02(case) and ctx.hist.get("known_class_D-C02_hits", 0) >= 25:
-                    ctx.count("known_class_D-C02_hits")     # keep the (capped) violation list for anything else
-                elif not ok:
-                    if dc02(case):
-                        ctx.count("known_class_D-C02_hits")
-                    ctx.violation("parse(render(dt)) != trunc(dt)", case, {"impl": ans, "expected": exp.isoformat(), "offset": off})
+                kid = classify_failure(t, d, off, exp, ans, m, got, year_now)
+                case["known_class"] = kid
+                if kid is not None:
+                    known_counts[kid] = known_counts.get(kid, 0) + 1
+                    ctx.count("known_class_%s_hits" % kid)
+                    if known_counts[kid] > 25:
+                        continue                 # keep the (capped) violation list for anything else
+                what = ("rendering rejected (%s)" % ans) if not ans.startswith("ok ") else "parse(render(dt)) != the datetime rendered"
+                ctx.violation(what, case, {"impl": ans, "model": m, "expected": exp.isoformat(), "offset": off})
         # two-digit years: the unique year within -50..+49 of info._year, over the whole window
         L.set_tz("UTC")
         for y in range(year_now - 50, year_now + 50):
@@ -271,29 +420,45 @@ def oracle(ctx):
                 if not (ans.startswith("ok ") and got.year == y and year_now - 50 <= got.year <= year_now + 49):
                     case = c.describe(); case.update({"template": t['name'], "year": y, "year_via_decimal": False})
                     ctx.violation("two-digit year must resolve to the unique year within -50..+49 of %d" % year_now, case, {"impl": ans})
-        ctx.sample({"text": "Wed May 28 23:52:59 0031", "impl": L.run_impl(L.Call("Wed May 28 23:52:59 0031", default=datetime.datetime(2001, 1, 1)))[0]})
-        ctx.sample({"text": "0031-05-28T23:52:59", "impl": L.run_impl(L.Call("0031-05-28T23:52:59", default=datetime.datetime(2001, 1, 1)))[0]})
-        ctx.sample({"text": "9999-12-31 23:59:59.999999-23:59", "impl": L.run_impl(L.Call("9999-12-31 23:59:59.999999-23:59"))[0]})
+        # the two witnesses, re-confirmed on every run
+        ctx.sample({"text": "Wed May 28 23:52:59 0031", "finding": "D-C02-monthname-century",
+                    "impl": L.run_impl(L.Call("Wed May 28 23:52:59 0031", default=datetime.datetime(2001, 1, 1)))[0]})
+        L.set_tz("UTC+3")
+        ctx.sample({"text": "2003-09-25T10:49:41+00:00", "TZ": "UTC+3", "time.tzname": list(_time.tzname),
+                    "finding": "D-C02-local-zone-named-utc", "impl": L.run_impl(L.Call("2003-09-25T10:49:41+00:00"))[0]})
+        L.set_tz("UTC")
+        for x in samples:
+            ctx.sample(x)
         ctx.hist["info_year"] = year_now
     finally:
         L.set_tz(prev)
 
 
-KNOWN = {"D-C02-monthname-century": lambda v: dc02(v["case"])}
+def _known(kid):
+    return lambda v: (kid in (v["case"].get("known_class") or "").split("+")
+                      and v["detail"].get("impl") is not None and v["detail"].get("impl") == v["detail"].get("model"))
+
+
+KNOWN = {"D-C02-hms-fraction-token-length": _known("D-C02-hms-fraction-token-length"),
+         "D-C02-monthname-century": _known("D-C02-monthname-century"),
+         "D-C02-local-zone-named-utc": _known("D-C02-local-zone-named-utc")}
 
 
 def replay(ctx, payload):
     c = payload["violation"]["case"]
+    if c.get("text") is None:
+        print("not a parse case: %s" % c)
+        return False
     prev = L.set_tz(c.get("TZ") or "UTC")
     try:
         call = L.call_from_case(c)
-        a, _, _ = L.run_impl(call)
+        a, _, got = L.run_impl(call, raw=True)
         m = L.model_answers(ctx, [call])[0]
     finally:
         L.set_tz(prev)
-    print("parse(%s) = %s; model = %s; rendered from %s" % (ascii(c["text"]), a, m, c.get("datetime")))
+    print("TZ=%s parse(%s) = %s; model = %s; rendered from %s with offset %r" % (c.get("TZ"), ascii(c["text"]), a, m, c.get("datetime"), c.get("offset")))
     d = datetime.datetime.fromisoformat(c["datetime"]) if c.get("datetime") else None
     if d is None or c.get("template") not in G.T:
         return False
-    exp = G.trunc(d, G.T[c["template"]]['prec'])
-    return a.startswith("ok %d %d %d %d %d %d %d |" % (exp.year, exp.month, exp.day, exp.hour, exp.minute, exp.second, exp.microsecond))
+    exp = expect_of(d, G.T[c["template"]]['prec'], call.default, c["template"])
+    return a.startswith("ok ") and zone_clause(got, exp, c.get("offset"))
